@@ -71,7 +71,7 @@ def props_award(E, res):
 # result contracts (their own accounting is decided in C07 / C08); the loop, the accumulation of slashed amounts, the
 # transaction and the burn are the real code.
 
-def run_settle(ndeals):
+def run_settle(ndeals, cut_index=False):
     def run(E):
         from .market_common import MARKET, F
         rt, rtref = new_rt(E)
@@ -122,6 +122,8 @@ def run_settle(ndeals):
             rem = E2.ctx.fresh_bool(nm + '.remove')
             return ok(StructV('tuple', {0: BigV(0), 1: BigV(pay), 2: done, 3: rem}), call.dest_ty)
         E.cuts['State::get_active_deal_or_process_timeout'] = cut_load
+        if cut_index:
+            E.cuts['State::remove_sector_deal_ids'] = lambda E2, c: ok(UNIT, c.dest_ty)      # provider->sector->deal index maintenance
         E.cuts['State::process_deal_update'] = cut_update
         E.ctx.env['pens'] = []
         E.ctx.env['balance0'] = rt.balance
@@ -153,7 +155,7 @@ def props_settle(E, res):
 def build(tier):
     O = miner_money.build_for('C01', tier)
     for n in ([1, 2] if tier == 'quick' else [1, 2, 3]):
-        O.append(Obligation('market.settle_deal_payments[%d deals]' % n, run_settle(n), props_settle,
+        O.append(Obligation('market.settle_deal_payments[%d deals%s]' % (n, '; index maintenance cut' if n >= 3 else ''), run_settle(n, n >= 3), props_settle,
                             descr='amounts slashed from timed-out proposals while settling a batch are burnt in full (one burn), nothing else leaves',
                             bounds='%d deal ids; CUTS: get_active_deal_or_process_timeout and process_deal_update replaced by result contracts (decided in C07/C08)' % n,
                             max_paths=200000))
